@@ -19,8 +19,17 @@ CLAUSE -> THEOREM TABLE (review R2; property text: properties.jsonl C16)
   (3) "the projection uses the ordinary (Frobenius) inner product of that tensor"
         torch_projection_is_frobenius, tf_projection_is_frobenius (generated kinds), frobenius_is_flat_dot;
         counter-model: sumInner_ne_frobenius_two_rows, sumInner_update_not_orthogonal, sumInner_eq_frobenius_single_row
+        NORM KIND (lifted: `torchNorm`, `tfNorm : NormKind`, Generated/AdvProjection.lean; the model `gradWithN`/`engineGradN`
+        computes with it): lifted_norm_is_frobenius / tf_lifted_norm_is_frobenius (what the source says now);
+        norm_kind_update_shape (ANY kind: g = A - c*B - alpha*B, c = <B,A>/|B|_n^2), norm_kind_orthogonality_defect (ANY kind:
+        <g + alpha B, B> = <A,B>*(1 - |B|_2^2/|B|_n^2)), orthogonal_iff_two_norm and projection_coefficient_iff_two_norm
+        (BOTH orthogonality and "c is the projection coefficient" hold iff |B|_n = |B|_2 -- a unit vector that is B scaled by
+        an arbitrary non-zero scalar is NOT enough), norm_kinds_vanish_together (zero branch independent of the kind),
+        norm_kinds_agree_on_one_entry (1x1 tensors cannot see the kind), norm_kinds_ordered (max-abs <= 2-norm <= L1), l1_update_not_orthogonal / maxAbs_update_not_orthogonal
+        (2x2 witnesses with non-proportional rows), torch_literal_form_lifted_norm (literal lines = torchStep's non-zero branch
+        when nrm is the norm of the LIFTED kind)
   (4) "so g + alpha*dLA/dW is orthogonal to dLA/dW"
-        orthogonal, engine_orthogonal, torch_step_orthogonal, tf_step_orthogonal (model = exact arithmetic, tiny dropped for
+        orthogonal, engine_orthogonal, engine_orthogonal_norm (through the norm kind), torch_step_orthogonal, tf_step_orthogonal (model = exact arithmetic, tiny dropped for
         dLA/dW != 0).  PARTIAL for the literal text: literal_tiny_orthogonality_defect gives the EXACT residual
         <A,B> * (1 - |B|^2/(|B|+tiny)^2) of the three source lines, literal_tiny_not_orthogonal proves it is non-zero whenever
         tiny > 0 and <A,B> != 0.  In float32 |B| + tiny == |B| for |B| >= 2^-102, so the defect is below resolution there;
@@ -28,7 +37,8 @@ CLAUSE -> THEOREM TABLE (review R2; property text: properties.jsonl C16)
         replayed on real fairlearn; the harness does not judge tensors with max|entry| < 1e-18).
         dLA/dW = 0: zero_branch, torch_zero_gradient_keeps_dLP, step_total_iff_tiny_survives, torch_step_total (g = dLP/dW, no NaN)
   (5) "the adversary's parameters follow the plain gradient of its own loss LA"
-        adversary_plain_gradient, whole_step_sgd (adversary part), lifted_train_step_gradients (appliedA = 0*dLP + 1*dLA + 0*stale),
+        adversary_plain_gradient, whole_step_sgd (adversary part), lifted_backward_graph_alive (call arguments pinned by the
+        lifter; `retain_graph` lifted: no backward pass through a freed graph), lifted_train_step_gradients (appliedA = 0*dLP + 1*dLA + 0*stale),
         step_eq_stepFromBookkeeping_lifted (the whole-step function IS the step dictated by the lifted statement list),
         tf_adversary_plain_gradient_structural (TensorFlow, structural only)
   (6) "for every layer shape (vectors and matrices with several rows)"
@@ -48,6 +58,7 @@ CLAUSE -> THEOREM TABLE (review R2; property text: properties.jsonl C16)
 import FairModel.Lemmas.Adversarial
 import FairModel.Lemmas.AdvStep
 import FairModel.Lemmas.AdvR2
+import FairModel.Lemmas.AdvNorm
 import FairModel.Model.TrainStepLifted
 
 namespace C16
@@ -162,6 +173,89 @@ theorem torch_projection_is_frobenius : torchInner = InnerKind.frobenius := by d
 /-- _tensorflow_engine.py: `reduce_sum(multiply(·,·))` (lifted structurally; TensorFlow is not installed) -/
 theorem tf_projection_is_frobenius : tfInner = InnerKind.frobenius := by decide
 
+/-! ### the norm kind (lifted) -/
+
+/-- _pytorch_engine.py normalises dLA/dW with the 2-norm of the flattened tensor (`torch.norm(g)`, default arguments).
+    FALSE after `torch.norm(g, p=1)` / `g.abs().max()` (lifted as `l1Flat` / `maxAbs`); `torch.linalg.norm(g, 2)` (spectral),
+    `dim=` variants and `p='nuc'` are refused by the lifter. -/
+theorem lifted_norm_is_frobenius : torchNorm = NormKind.frobenius := by decide
+
+/-- _tensorflow_engine.py: `tensorflow.norm(g)` (default `ord='euclidean'`, `axis=None`: the flattened 2-norm) -/
+theorem tf_lifted_norm_is_frobenius : tfNorm = NormKind.frobenius := by decide
+
+/-- NEEDS NO PARTICULAR NORM: whatever the norm kind, the update is `A − c·B − α·B` with `c = <B,A>_k / ‖B‖ₙ²` (the update
+    stays in `A + span B`; only the coefficient depends on the norm) -/
+theorem norm_kind_update_shape (k : InnerKind) (n : NormKind) (A B : Mat) (α : Rat) :
+    gradWithN k n A B α = gradCoef (inner k B A / normSq n B) A B α := rfl
+
+example : gradWithN .frobenius .l1Flat [[1, 0], [0, 1]] [[1, 1], [0, 1]] 1 = [[-2/9, -11/9], [0, -2/9]] ∧
+    normSq .l1Flat [[1, 1], [0, 1]] = 9 ∧ normSq .frobenius [[1, 1], [0, 1]] = 3 ∧ normSq .maxAbs [[1, 1], [0, 1]] = 1 := by
+  decide +kernel
+
+/-- NEEDS NO PARTICULAR NORM: the exact component of `g + α·dLA/dW` along `dLA/dW`, for every norm kind -/
+theorem norm_kind_orthogonality_defect (n : NormKind) (A B : Mat) (α : Rat) (h : sameShape A B = true) :
+    frob (madd (gradWithN .frobenius n A B α) (msmul α B)) B = frob A B * (1 - frob B B / normSq n B) :=
+  frob_gradWithN_add n α h
+
+/- non-vacuity: A = I, B = [[1,1],[0,1]] (non-proportional rows), l1: <A,B> = 2, |B|_2^2 = 3, |B|_1^2 = 9: defect 2*(1-1/3) = 4/3 -/
+example : frob (madd (gradWithN .frobenius .l1Flat [[1, 0], [0, 1]] [[1, 1], [0, 1]] 1) (msmul 1 [[1, 1], [0, 1]])) [[1, 1], [0, 1]] = 4/3 := by
+  decide +kernel
+
+/-- ORTHOGONALITY NEEDS THE 2-NORM: with `dLA/dW ≠ 0` and `<dLP/dW, dLA/dW> ≠ 0` the update is orthogonal to `dLA/dW`
+    iff `‖B‖ₙ² = <B,B>`. -/
+theorem orthogonal_iff_two_norm (n : NormKind) (A B : Mat) (α : Rat) (h : sameShape A B = true)
+    (hB : frob B B ≠ 0) (hAB : frob A B ≠ 0) :
+    frob (madd (gradWithN .frobenius n A B α) (msmul α B)) B = 0 ↔ normSq n B = frob B B :=
+  orthogonal_iff_normSq_eq_frob n α h hB hAB
+
+example : frob (madd (gradWithN .frobenius .frobenius [[1, 0], [0, 1]] [[1, 1], [0, 1]] 1) (msmul 1 [[1, 1], [0, 1]])) [[1, 1], [0, 1]] = 0 :=
+  (orthogonal_iff_two_norm .frobenius [[1, 0], [0, 1]] [[1, 1], [0, 1]] 1 (by decide +kernel) (by decide +kernel) (by decide +kernel)).mpr rfl
+
+/-- "THE COEFFICIENT IS THE PROJECTION COEFFICIENT" NEEDS THE 2-NORM, exactly as orthogonality does -/
+theorem projection_coefficient_iff_two_norm (n : NormKind) (A B : Mat) (hB : frob B B ≠ 0) (hBA : frob B A ≠ 0) :
+    frob B A / normSq n B = frob B A / frob B B ↔ normSq n B = frob B B :=
+  coefficient_is_projection_iff n A B hB hBA
+
+example : frob [[1, 1], [0, 1]] [[1, 0], [0, 1]] / normSq .l1Flat [[1, 1], [0, 1]] ≠
+    frob [[1, 1], [0, 1]] [[1, 0], [0, 1]] / frob [[1, 1], [0, 1]] [[1, 1], [0, 1]] := by decide +kernel
+
+/-- the three kinds vanish on exactly the same tensors (the zero tensor): the zero branch does not depend on the kind -/
+theorem norm_kinds_vanish_together (n : NormKind) (B : Mat) : normSq n B = 0 ↔ ∀ r ∈ B, ∀ x ∈ r, x = 0 := by
+  rw [normSq_eq_zero_iff, frob_self_eq_zero]
+
+/-- the kinds are ordered, `‖B‖_max² ≤ ‖B‖₂² ≤ ‖B‖₁²` (every tensor): by `norm_kind_orthogonality_defect` the L1 norm leaves a
+    component along dLA/dW of the SAME sign as `<dLP/dW, dLA/dW>` (under-projection), the max-abs norm one of the OPPOSITE
+    sign (over-projection) -/
+theorem norm_kinds_ordered (B : Mat) :
+    normSq .maxAbs B ≤ normSq .frobenius B ∧ normSq .frobenius B ≤ normSq .l1Flat B := normSq_order B
+
+/- strict on a tensor with two non-zero entries -/
+example : normSq .maxAbs [[1, 1], [0, 1]] < normSq .frobenius [[1, 1], [0, 1]] ∧
+    normSq .frobenius [[1, 1], [0, 1]] < normSq .l1Flat [[1, 1], [0, 1]] := by decide +kernel
+
+/-- why a 1×1 tensor cannot see the norm kind -/
+theorem norm_kinds_agree_on_one_entry (n : NormKind) (x : Rat) : normSq n [[x]] = x * x := normSq_single_entry n x
+
+/-- regression witnesses: with the L1 norm / the max-abs norm of the flattened tensor the update is NOT orthogonal to dLA/dW
+    (2×2, non-proportional rows; also visible on the single row [[1,1]]) -/
+theorem l1_update_not_orthogonal :
+    ∃ A B G : Mat, ∃ α : Rat, sameShape A B = true ∧ engineGradN .frobenius .l1Flat .float32 A B α = some G ∧
+      frob (madd G (msmul α B)) B ≠ 0 :=
+  ⟨[[1, 0], [0, 1]], [[1, 1], [0, 1]], [[-2/9, -11/9], [0, -2/9]], 1, by decide +kernel, by decide +kernel, by decide +kernel⟩
+
+theorem maxAbs_update_not_orthogonal :
+    ∃ A B G : Mat, ∃ α : Rat, sameShape A B = true ∧ engineGradN .frobenius .maxAbs .float32 A B α = some G ∧
+      frob (madd G (msmul α B)) B ≠ 0 :=
+  ⟨[[1, 0], [0, 1]], [[1, 1], [0, 1]], [[-2, -3], [0, -2]], 1, by decide +kernel, by decide +kernel, by decide +kernel⟩
+
+/-- `engine_orthogonal` THROUGH the norm kind: an engine with the Frobenius projection line and norm kind `n` satisfies the
+    property on every tensor shape as soon as `n` is the 2-norm of the flattening -/
+theorem engine_orthogonal_norm (n : NormKind) (t : TinyKind) (A B G : Mat) (α : Rat) (hn : n = NormKind.frobenius)
+    (h : sameShape A B = true) (hB : frob B B ≠ 0) (hG : engineGradN .frobenius n t A B α = some G) :
+    frob (madd G (msmul α B)) B = 0 := by
+  subst hn
+  exact engine_orthogonal t A B G α h hB hG
+
 /-- the literal three lines of the PyTorch loop body (norm as a parameter, tiny = 0) equal the normalised model -/
 theorem torch_literal_form (A B : Mat) (α nrm : Rat) (h : sameShape A B = true)
     (hn : nrm * nrm = frob B B) (hn0 : nrm ≠ 0) :
@@ -186,6 +280,30 @@ theorem tf_literal_form (A B : Mat) (α nrm : Rat) (h : sameShape A B = true)
 example : engineGradRaw tfUnit tfGrad tfInner [[1, 2], [3, 1]] [[3, 0], [0, 4]] (1/2) 5 0 =
     gradWith tfInner [[1, 2], [3, 1]] [[3, 0], [0, 4]] (1/2) :=
   tf_literal_form _ _ (1/2) 5 (by decide +kernel) (by decide +kernel) (by decide +kernel)
+
+/-- the literal three lines with `nrm` = the norm of the LIFTED kind (`nrm² = ‖B‖ₙ²`, `n = torchNorm`) are exactly what
+    `torchStep` (the function behind the driver ops `adv.step torch`, `advstep.step`, `advstep.fit`) returns on its
+    non-zero branch -/
+theorem torch_literal_form_lifted_norm (A B : Mat) (α nrm : Rat) (h : sameShape A B = true)
+    (hn : nrm * nrm = normSq torchNorm B) (hn0 : nrm ≠ 0) (hB : frob B B ≠ 0) :
+    torchStep A B α = some (engineGradRaw torchUnit torchGrad torchInner A B α nrm 0) := by
+  unfold torchStep
+  rw [engineGradN_nonzero _ _ _ _ _ _ hB,
+    engineGradRaw_eq_N torchUnit torchGrad (by intro b n; simp [torchUnit]) (by intro a u b p α; simp [torchGrad])
+      torchInner torchNorm A B α nrm h hn hn0]
+
+theorem tf_literal_form_lifted_norm (A B : Mat) (α nrm : Rat) (h : sameShape A B = true)
+    (hn : nrm * nrm = normSq tfNorm B) (hn0 : nrm ≠ 0) (hB : frob B B ≠ 0) :
+    tfStep A B α = some (engineGradRaw tfUnit tfGrad tfInner A B α nrm 0) := by
+  unfold tfStep
+  rw [engineGradN_nonzero _ _ _ _ _ _ hB,
+    engineGradRaw_eq_N tfUnit tfGrad (by intro b n; simp [tfUnit]) (by intro a u b p α; simp [tfGrad])
+      tfInner tfNorm A B α nrm h hn hn0]
+
+/- non-vacuity: |[[3,0],[0,4]]|_2 = 5 -/
+example : torchStep [[1, 2], [3, 1]] [[3, 0], [0, 4]] (1/2) =
+    some (engineGradRaw torchUnit torchGrad torchInner [[1, 2], [3, 1]] [[3, 0], [0, 4]] (1/2) 5 0) :=
+  torch_literal_form_lifted_norm _ _ (1/2) 5 (by decide +kernel) (by decide +kernel) (by decide +kernel) (by decide +kernel)
 
 /-- REVIEW R2. The three source lines WITH the regulariser as written (`unit = dW_LA / (norm + tiny)`), for every `tiny` and
     every value `nrm` of the norm: the projection coefficient is `<B,A> / (nrm + tiny)²`. -/
@@ -236,7 +354,7 @@ theorem torch_step_orthogonal (A B G : Mat) (α : Rat) (h : sameShape A B = true
     (hG : torchStep A B α = some G) : frob (madd G (msmul α B)) B = 0 := by
   unfold torchStep at hG
   rw [torch_projection_is_frobenius] at hG
-  exact engine_orthogonal _ A B G α h hB hG
+  exact engine_orthogonal_norm torchNorm _ A B G α lifted_norm_is_frobenius h hB hG
 
 example : frob (madd [[-2/3, -5/3], [0, -2/3]] (msmul 1 [[1, 1], [0, 1]])) [[1, 1], [0, 1]] = 0 :=
   torch_step_orthogonal [[1, 0], [0, 1]] [[1, 1], [0, 1]] _ 1 (by decide +kernel) (by decide +kernel) (by decide +kernel)
@@ -245,7 +363,7 @@ theorem tf_step_orthogonal (A B G : Mat) (α : Rat) (h : sameShape A B = true) (
     (hG : tfStep A B α = some G) : frob (madd G (msmul α B)) B = 0 := by
   unfold tfStep at hG
   rw [tf_projection_is_frobenius] at hG
-  exact engine_orthogonal _ A B G α h hB hG
+  exact engine_orthogonal_norm tfNorm _ A B G α tf_lifted_norm_is_frobenius h hB hG
 
 example : frob (madd [[-2/3, -5/3], [0, -2/3]] (msmul 1 [[1, 1], [0, 1]])) [[1, 1], [0, 1]] = 0 :=
   tf_step_orthogonal [[1, 0], [0, 1]] [[1, 1], [0, 1]] _ 1 (by decide +kernel) (by decide +kernel) (by decide +kernel)
@@ -254,7 +372,7 @@ example : frob (madd [[-2/3, -5/3], [0, -2/3]] (msmul 1 [[1, 1], [0, 1]])) [[1, 
 theorem torch_step_is_combine (A B : Mat) (α : Rat) (h : sameShape A B = true) (hB : frob B B ≠ 0) :
     (torchStep A B α).map flat = some (combine (flat A) (flat B) α) := by
   unfold torchStep
-  rw [torch_projection_is_frobenius, nonzero_branch _ _ _ _ _ hB]
+  rw [torch_projection_is_frobenius, lifted_norm_is_frobenius, engineGradN_frobenius, nonzero_branch _ _ _ _ _ hB]
   simp [flat_gradWith_frobenius α h]
 
 example : (torchStep [[1, 0], [0, 1]] [[1, 1], [0, 1]] 1).map flat = some (combine [1, 0, 0, 1] [1, 1, 0, 1] 1) :=
@@ -275,8 +393,22 @@ theorem step_total_iff_tiny_survives (k : InnerKind) (t : TinyKind) :
     unfold engineGrad
     split <;> simp
 
+/-- the same for every norm kind (the zero branch does not depend on it) -/
+theorem step_total_iff_tiny_survives_norm (k : InnerKind) (n : NormKind) (t : TinyKind) :
+    (∀ (A B : Mat) (α : Rat), (engineGradN k n t A B α).isSome = true) ↔ t = TinyKind.float32 := by
+  constructor
+  · intro h
+    cases t with
+    | float32 => rfl
+    | float64 =>
+      have := h [[1]] [[0]] 0
+      simp [engineGradN] at this
+  · rintro rfl A B α
+    unfold engineGradN
+    split <;> simp
+
 theorem tf_step_total (A B : Mat) (α : Rat) : (tfStep A B α).isSome = true :=
-  (step_total_iff_tiny_survives tfInner tfTiny).mpr (by decide) A B α
+  (step_total_iff_tiny_survives_norm tfInner tfNorm tfTiny).mpr (by decide) A B α
 
 /-- _pytorch_engine.py adds a regulariser that survives float32 arithmetic
     (FALSE while the source says `torch.finfo(float).tiny`, the float64 tiny: finding F11) -/
@@ -284,14 +416,14 @@ theorem torch_tiny_survives_float32 : torchTiny = TinyKind.float32 := by decide
 
 /-- hence the PyTorch step never produces the NaN tensor ... -/
 theorem torch_step_total (A B : Mat) (α : Rat) : (torchStep A B α).isSome = true :=
-  (step_total_iff_tiny_survives torchInner torchTiny).mpr torch_tiny_survives_float32 A B α
+  (step_total_iff_tiny_survives_norm torchInner torchNorm torchTiny).mpr torch_tiny_survives_float32 A B α
 
 /-- ... and for `dLA/dW = 0` the parameter follows `dLP/dW` alone (the projection on the zero tensor is 0) -/
 theorem torch_zero_gradient_keeps_dLP (A B : Mat) (α : Rat) (hB : ∀ r ∈ B, ∀ x ∈ r, x = 0) :
     torchStep A B α = some A := by
   unfold torchStep
   rw [torch_tiny_survives_float32]
-  exact (zero_branch torchInner A B α hB).1
+  exact (engineGradN_zero torchInner torchNorm A B α ((frob_self_eq_zero B).mpr hB)).1
 
 example : torchStep [[1, 2], [3, 4]] [[0, 0], [0, 0]] (5/2) = some [[1, 2], [3, 4]] :=
   torch_zero_gradient_keeps_dLP _ _ (5/2) (by decide +kernel)
@@ -464,6 +596,20 @@ open TrainStepL AdvTrainStepSrc
 theorem lifted_train_step_gradients :
     lifted.ok = true ∧ lifted.snapLP = some ⟨1, 0, 0⟩ ∧ lifted.snapLA = some ⟨0, 1, 0⟩ ∧
     lifted.appliedP = some (.comb ⟨1, 0, 0⟩ ⟨0, 1, 0⟩) ∧ lifted.appliedA = some ⟨0, 1, 0⟩ := by decide
+
+/-- The arguments of the bookkeeping calls are pinned by the lifter (`zero_grad` / `train` / `step`: nothing that changes a
+    gradient; `backward`: only `retain_graph=<literal>`, lifted as `retainsGraph`; `inputs=` / `gradient=` are REFUSED).
+    What remains to be checked about `retain_graph`: LP's backward pass keeps the predictor's forward graph, which LA's
+    backward pass walks again (LA reaches the predictor through the undetached `Y_hat`) -- no pass meets a freed graph. -/
+theorem lifted_backward_graph_alive : liftedGraphOk = true ∧ retainsGraph .LP = true := by decide
+
+/-- regression witness: without `retain_graph=True` on the first backward pass the second one raises -/
+theorem dropped_retain_graph_raises : graphOk dependsOn (fun _ => false) events [] = false := by decide
+
+/-- ... and the flag is only needed because LA depends on the predictor: with a detached adversary input
+    (`dependsOn .LA = [.adversary]`) nothing is walked twice -/
+theorem retain_graph_needed_only_through_yhat :
+    graphOk (fun l => match l with | .LP => [.predictor] | .LA => [.adversary]) (fun _ => false) events [] = true := by decide
 
 /-- the data flow of `train_step`: LP reaches only the predictor's parameters, LA reaches both players' -/
 theorem lifted_loss_dependencies : dependsOn .LP = [.predictor] ∧ dependsOn .LA = [.predictor, .adversary] := by decide
